@@ -331,6 +331,14 @@ class FP:
         y = self.ctx.fresh_real(name)
         tab.append((name, args, y))
         st.user["uf"] = tab
+        if name == "exp":
+            # range facts of the real exponential (sound for every argument): positive; <= 1 for x <= 0; >= 1 for x >= 0
+            st.pc.append(y > 0)
+            st.pc.append(z3.Implies(args[0] <= 0, y <= 1))
+            st.pc.append(z3.Implies(args[0] >= 0, y >= 1))
+            self.ctx.res.assumptions.add("axiom: exp(x) > 0, exp(x) <= 1 for x <= 0, exp(x) >= 1 for x >= 0")
+        elif name == "sqrt":
+            st.pc.append(y >= 0)
         self.ctx.res.assumptions.add("%s() is uninterpreted: only f(x)=f(y) for provably equal arguments is used" % name)
         return y
 
